@@ -5,15 +5,21 @@ from checks.bbi_family import *
 def main():
     run = Run("C01")
     cfgs = ["MC_BigWig_t1.cfg", "MC_BigWig_t2.cfg", "MC_BigWig_q3.cfg"] if run.thorough else ["MC_BigWig_q1.cfg", "MC_BigWig_q2.cfg", "MC_BigWig_q3.cfg"]
-    beh = emit(run, "MC_BigWig", cfgs)
-    # deeper layouts by random walks: 5..8 items over two chromosomes, one or two per block, fan-out 2 => 3- and 4-level indexes
-    beh += emit_sim(run, "MC_BigWig", "MC_BigWig_deep.cfg", 3000 if run.thorough else 300)
     sizes = lambda b: [b["L"]] * b["NC"]
-    cases = make_cases(beh, "bw", sizes, run)
-    # bit identity: the same layouts with the value tokens mapped to -0.0, subnormals, f32::MAX, 0.1 ...
-    weird = make_cases(beh[::7], "bw", sizes, run, vmap="weird")
-    for c in weird:
-        c["opts"]["zooms"] = []
+    nt = lambda o: len(o["items"]) >= 2
+    desc = lambda o: {k: (o["obs"].get(k) if not (o.get("long") and k == "read") else len(o["obs"].get(k, []))) for k in ("result", "err", "chroms", "read")}
+    obs = []
+    # exhaustive layouts, then deeper layouts by random walks: 5..8 items over two chromosomes, one or two per block,
+    # fan-out 2 => 3- and 4-level indexes; one configuration and one slice at a time (memory)
+    for beh, k0 in each_batch(run, "MC_BigWig", cfgs, sims=[("MC_BigWig_deep.cfg", 3000 if run.thorough else 300)]):
+        cases = make_cases(beh, "bw", sizes, run, k0=k0)
+        # bit identity: the same layouts with the value tokens mapped to -0.0, subnormals, f32::MAX, 0.1 ...
+        weird = make_cases(beh[::7], "bw", sizes, run, vmap="weird", k0=k0)
+        for c in weird:
+            c["opts"]["zooms"] = []
+        got = judge(run, "C01", "Obs_BigWig", cases + weird, nt, desc)
+        obs = obs or got[:2000]
+        del cases, weird, got
     # boundary option values: items_per_slot = 65535 (the section header's u16 item count) with more
     # than 65536 values on one chromosome, and a large block size
     n = 70000
@@ -22,9 +28,7 @@ def main():
         longc.append({"kind": "bw", "chroms": [2 * n + 5], "items": [[1, 2 * i, 2 * i + 1, 1 + i % 3] for i in range(n)], "vmap": "int", "allq": 0, "zq": 0,
                       "mz": [], "scale": 1, "asq": "bed3", "long": 1,
                       "opts": {"ips": ips, "bs": bs, "zooms": [], "zmode": "manual", "compress": 1 - k, "inmem": 1, "rt": "multi", "threads": 2, "pass": 1 + k, "chan": 100}})
-    nt = lambda o: len(o["items"]) >= 2
-    desc = lambda o: {k: (o["obs"].get(k) if not (o.get("long") and k == "read") else len(o["obs"].get(k, []))) for k in ("result", "err", "chroms", "read")}
-    obs = judge(run, "C01", "Obs_BigWig", cases + weird + longc, nt, desc)
+    judge(run, "C01", "Obs_BigWig", longc, nt, desc)
     run.cov["rule"] = ("every sorted non-overlapping layout within the TLC bounds x (ips, zoom list) from TLC, free options "
                        "(compress, inmemory, runtime/threads, passes, channel, block size) paired; non-trivial = at least 2 values; "
                        "distinct by (items, ips, zooms)")
